@@ -1,6 +1,7 @@
 import RegexVerif.Sexp
 import RegexVerif.Model.Backtrack
 import RegexVerif.Driver.SpecIO
+import RegexVerif.Driver.Writer
 
 namespace RegexVerif.Driver
 open RegexVerif Sexp Spec
@@ -9,6 +10,7 @@ open RegexVerif Sexp Spec
     executable matcher (`findRun = find`: Props.C01.findRun_eq_find) -/
 def handleC01 (args : List Sexp) : String :=
   match args with
+  | .atom "writer" :: rest => handleWriter rest
   | [.atom "find", rtl, start, ng, p, e] =>
     match rtl.bool?, start.nat?, ng.nat?, pat? p, env? e with
     | some rtl, some start, some ng, some p, some e => renderResult ng (Spec.findRun e p rtl start)
